@@ -149,12 +149,34 @@ def native_run(text, entry, inputs, timeout=30, san=True, env_extra=None):
 def native_confirm(task, viol):
     """replay one counterexample against the real build -> (reproduced?, detail)"""
     kind = viol['kind']
+    if kind == 'schedule_dependent':
+        # the written file must not depend on the schedule: compare the bytes across sleep-perturbed native runs
+        seen = {}
+        for seed in range(0, 40):
+            nr = native_run(task.text, task.entry, viol['inputs'], timeout=30,
+                            env_extra={'VP_CHAOS': str(seed * 7919)} if seed else None)
+            for tag, bs in nr['outs']:
+                if tag == 'file':
+                    seen.setdefault(bytes(bs), seed)
+            if len(seen) > 1:
+                return True, 'native runs under different sleep-perturbed schedules wrote different files (%s bytes)' % (
+                    ' vs '.join(str(len(k)) for k in seen))
+        return False, '40 native runs wrote identical files'
     if kind == 'growth':
         # re-measure natively with the counting allocator: the judge callback decides
         cb = task.opts.get('native_growth')
         if cb is None:
             return False, 'no native growth measurement'
         return cb()
+    if kind == 'uninit_member':
+        a = native_run(task.text, task.entry, viol['inputs'], env_extra={'VP_POISON': '0x00'})
+        b = native_run(task.text, task.entry, viol['inputs'], env_extra={'VP_POISON': '0xA5'})
+        oa = [o for o in a['outs'] if o[0].startswith('c:')]
+        ob = [o for o in b['outs'] if o[0].startswith('c:')]
+        diff = [x[0] for x, y in zip(oa, ob) if x != y]
+        if diff:
+            return True, 'member values of a freshly constructed object differ between heap poison 0x00 and 0xA5: %s' % diff[:6]
+        return False, 'members identical under two heap poisons'
     if kind == 'uninit_output':
         a = native_run(task.text, task.entry, viol['inputs'], env_extra={'VP_POISON': '0x00'})
         b = native_run(task.text, task.entry, viol['inputs'], env_extra={'VP_POISON': '0xA5'})
@@ -197,7 +219,15 @@ def native_confirm(task, viol):
         bad = nr['rc'] != 0 or not nr['done']
         return bad, 'native rc=%s %s' % (nr['rc'], nr['stderr'][-600:].replace('\n', ' | '))
     if kind in ('deadlock', 'hang'):
-        return nr['timeout'], 'native run %s' % ('timed out (hang)' if nr['timeout'] else 'completed')
+        if nr['timeout']:
+            return True, 'native run timed out (hang)'
+        for seed in range(1, 7):
+            n2 = native_run(task.text, task.entry, viol['inputs'], timeout=20, env_extra={'VP_CHAOS': str(seed * 104729)})
+            if n2['timeout']:
+                return True, 'native run with chaos seed %d timed out (hang)' % (seed * 104729)
+            if n2['rc'] != 0:
+                return True, 'native run with chaos seed %d failed rc=%s %s' % (seed * 104729, n2['rc'], n2['stderr'][-300:].replace('\n', ' | '))
+        return False, 'native run completed (7 attempts, 6 with sleep-perturbed schedules)'
     if kind == 'assert':
         return viol['msg'] in nr['asserts'], 'native asserts: %r' % nr['asserts'][:4]
     # judge-produced violation: re-judge the concrete exports
